@@ -24,7 +24,7 @@ import pathlib
 import shutil
 import sys
 
-from ..core import MachineryFailure, NCPU, REPO, SPECS, sha
+from ..core import MachineryFailure, NCPU, REPO, SPECS
 from .. import tlc
 
 LANGS = ("c", "cpp", "py", "html")
@@ -180,15 +180,27 @@ class Realizer:
                                      (n.lower() + "_.j2", "x"), ("X" + n + ".j2", "x"), (n + "2.j2", "x"), (n, "x")]))
         rng.shuffle(files)
         placed = set()
+        layout = []  # creation order: (index of the directory in the search path, file name, text)
         for fn, txt in files:
             if fn in placed:
                 continue
             placed.add(fn)
-            targets = [rng.choice(dirs)]
+            targets = [rng.randrange(nd)]
             if nd > 1 and rng.random() < 0.2:
-                targets = dirs  # the same user template in every directory
-            for d in targets:
-                (d / fn).write_text(txt)
+                targets = list(range(nd))  # the same user template in every directory
+            for t in targets:
+                (dirs[t] / fn).write_text(txt)
+                layout.append([t, fn, txt])
+        return dirs, {"dirs": [d.name for d in dirs], "files": layout}
+
+    def user_layout(self, layout):
+        """re-create a recorded realization (replay)"""
+        self.n += 1
+        dirs = [self.root / ("r%d_%s" % (self.n, n)) for n in layout["dirs"]]
+        for d in dirs:
+            d.mkdir()
+        for t, fn, txt in layout["files"]:
+            (dirs[t] / fn).write_text(txt)
         return dirs
 
     def drop(self, dirs):
@@ -502,6 +514,9 @@ class Judge:
             rec, info = self.recs[rid], self.info[rid]
             if clause.startswith("harness"):
                 raise MachineryFailure("harness produced an inconsistent record (%s): %r" % (clause, rec))
+            if clause.startswith("drift."):
+                ctx.drift("%s: the property holds if the template set the I-layer calls invisible is consulted too: %r" % (clause, info.get("case")))
+                continue
             report(ctx, rec, info, clause)
         return rej
 
@@ -532,7 +547,8 @@ def report(ctx, rec, info, clause):
         ctx.violation("C16|env.test_exists|%s" % ("name" if not rec["has_name"] else "alias"),
                       "instance test %r / alias %r missing from the environment (%s)" % (to_s(rec["name"]), to_s(rec["alias"]), info["desc"]), info["case"])
     elif k == "env":
-        ctx.violation("C16|env.no_silent_replace|%s|%s" % (info["kinds"], info["cats"]),
+        rk = "+".join(sorted({x.split(":")[0] for x in info["replaced_names"]})) or "none"
+        ctx.violation("C16|env.no_silent_replace|%s|%s" % (rk, info["path"]),
                       "user additions %r (path %s, language %s) raised no error and replaced %d protected name(s): %s"
                       % (info["adds"], info["path"], info["lang"], rec["replaced"], info["replaced_names"]), info["case"])
 
@@ -542,9 +558,10 @@ def report(ctx, rec, info, clause):
 # ---------------------------------------------------------------------------------------------------------------------
 def emission_jobs(ctx, variant):
     """spec -> code stimuli: every complete history of the bounded model with the I-layer's predicted answers"""
-    quick = [("chain4", m, 3) for m in ("both", "fs", "pkg")] + [("diamond4", "both", 3), ("diamond4", "fs", 3), ("diamond4", "pkg", 3),
+    quick = [("chain4", m, 3) for m in ("both", "fs", "pkg")] + [("diamond4", "both", 2), ("diamond4", "fs", 3), ("diamond4", "pkg", 3),
                                                                    ("tree5", "both", 2)]
-    thorough = quick + [("tree5", "both", 3), ("chain5", "both", 3), ("diamond5", "both", 3), ("tree5", "fs", 3), ("tree5", "pkg", 3)]
+    thorough = [("chain4", m, 3) for m in ("both", "fs", "pkg")] + [("diamond4", m, 3) for m in ("both", "fs", "pkg")] + [
+        ("tree5", "both", 3), ("chain5", "both", 3), ("diamond5", "both", 3), ("tree5", "fs", 3), ("tree5", "pkg", 3)]
     spec = SPECS / "TemplateLookup.tla"
     jobs = []
     for sh, mode, L in ctx.pick(quick, thorough):
@@ -638,7 +655,7 @@ def rand_real_histories(ctx, R, LP, J, H, n):
         lookups = [rng.choice(relv if rng.random() < 0.85 else ids) for _ in range(rng.randint(1, 6))]
         flavor = rng.randint(0, 1)
         cdirs = R.user(H.names(user))
-        vdirs = R.user_variant(H.names(user), rng) if mode != "pkg" and rng.random() < 0.7 else cdirs
+        vdirs, layout = R.user_variant(H.names(user), rng) if mode != "pkg" and rng.random() < 0.7 else (cdirs, None)
         if use_real:
             kw = {"pkg": "nunavut.lang." + lang, "tpath": "templates"}
             b = "templates"
@@ -653,7 +670,7 @@ def rand_real_histories(ctx, R, LP, J, H, n):
         ctx.count(len(steps))
         case = {"kind": "hist", "path": "loader", "hier": "pydsdl", "mode": mode, "flavor": flavor, "user": H.names(user), "builtin": H.names(builtin),
                 "lookups": [H.cls[c].__name__ for c in lookups],
-                "real_package": lang if use_real else None, "variant_dirs": vdirs is not cdirs}
+                "real_package": lang if use_real else None, "layout": layout}
         J.add(hist_record(0, H, user, builtin, mode, steps), hier=H, mode=mode, path="DSDLTemplateLoader/pydsdl", case=case)
         if vdirs is not cdirs:
             R.drop(vdirs)
@@ -682,7 +699,7 @@ def generator_histories(ctx, R, J, H, GP, n):
         hid = {c for c in relv if rng.random() < 0.4}
         user, builtin = (vis, hid) if mode == "fs" else (hid, vis)
         cdirs = R.user(H.names(user))
-        vdirs = R.user_variant(H.names(user), rng) if mode == "fs" and rng.random() < 0.6 else cdirs
+        vdirs, layout = R.user_variant(H.names(user), rng) if mode == "fs" and rng.random() < 0.6 else (cdirs, None)
         b = R.builtin(H.names(builtin))
         flavor = rng.randint(0, 5)
         g = GP.gen(lang, mode, vdirs, b, flavor=flavor)
@@ -695,7 +712,7 @@ def generator_histories(ctx, R, J, H, GP, n):
             steps.append({"c": c, "got": got, "cold": cold, "ref": ref, "src": src})
         ctx.count(len(steps))
         case = {"kind": "hist", "path": "generator", "lang": lang, "hier": "pydsdl", "mode": mode, "flavor": flavor, "user": H.names(user),
-                "builtin": H.names(builtin), "values": [d for d, _ in picks], "variant_dirs": vdirs is not cdirs}
+                "builtin": H.names(builtin), "values": [d for d, _ in picks], "layout": layout}
         J.add(hist_record(0, H, user, builtin, mode, steps), hier=H, mode=mode, path="DSDLCodeGenerator.filter_type_to_template/" + lang, case=case)
         ctx.distinct("g|%s|%s|%s|%s|%s" % (lang, mode, sorted(user), sorted(builtin), [s["c"] for s in steps]), nontrivial=bool(vis))
         if i == 1:
@@ -729,6 +746,41 @@ def generator_histories(ctx, R, J, H, GP, n):
                     "builtin": H.names(builtin)}
             J.add(hist_record(0, H, user2, builtin, "fs", steps), hier=H, mode="fs", path="DSDLCodeGenerator.generate_all/" + lang, case=case)
     return ngen
+
+
+def support_templates(ctx, R, J, GP):
+    """clause 1 on the public by-name path: SupportGenerator renders the support templates by NAME; a user template of the same
+    name (support_templates_dir) must be the one that is used.  Encoded as a one-class hierarchy: the name is its own class."""
+    from nunavut.jinja import SupportGenerator
+
+    n = 0
+    for lang in ("c", "cpp", "py"):
+        sup = REPO / "src" / "nunavut" / "lang" / lang / "support"
+        names = sorted(p.stem for p in sup.glob("*.j2"))
+        for name in names:
+            for with_user in (True, False):
+                hier = Hier("support", [type(name, (object,), {})], None)
+                d = R.root / ("sup_%s_%s" % (lang, name))
+                d.mkdir(exist_ok=True)
+                (d / (name + ".j2")).write_text("U:" + name)
+                (d / "unrelated.j2").write_text("U:unrelated")
+                kw = {"support_templates_dir": [d]} if with_user else {"templates_dir": [d]}  # templates_dir must not influence support files
+                g = SupportGenerator(GP.ns[lang], **kw)
+                outs = [pathlib.Path(str(o)) for o in g.generate_all(False, True)]
+                hit = [o for o in outs if o.stem == name]
+                if len(hit) != 1:
+                    raise MachineryFailure("support file for %s/%s not generated: %r" % (lang, name, outs))
+                txt = hit[0].read_text()
+                src = 1 if txt.strip() == "U:" + name else (3 if txt.startswith("U:") else 2)
+                shutil.rmtree(str(GP.out / lang), True)
+                steps = [{"c": 1, "got": 1, "cold": 1, "ref": 1, "src": src}]
+                case = {"kind": "support", "lang": lang, "name": name, "with_user": with_user}
+                J.add(hist_record(0, hier, {1} if with_user else set(), {1}, "both", steps), hier=hier, mode="both",
+                      path="SupportGenerator/" + lang, case=case)
+                ctx.count()
+                ctx.distinct("s|%s|%s|%s" % (lang, name, with_user))
+                n += 1
+    return n
 
 
 # ---------------------------------------------------------------------------------------------------------------------
@@ -875,7 +927,33 @@ class EnvPath:
             return e, None
 
     def observe(self, path, lang, allow, adds):
-        err, env = self.build(path, lang, allow, adds)
+        """-> (exception or None, protected names now bound to a user object, Jinja default globals so bound, all user-bound names,
+        noisy).  noisy: no exception, but a warning / a log record of level WARNING or above that names one of the additions was
+        emitted -- that is not a SILENT replacement either."""
+        import logging
+        import warnings
+
+        seen = []
+
+        class Cap(logging.Handler):
+            def emit(self, record):
+                try:
+                    seen.append(record.getMessage())
+                except Exception:  # noqa
+                    seen.append(str(record.msg))
+
+        cap = Cap(level=logging.WARNING)
+        root = logging.getLogger()
+        root.addHandler(cap)
+        try:
+            with warnings.catch_warnings(record=True) as wl:
+                warnings.simplefilter("always")
+                err, env = self.build(path, lang, allow, adds)
+            seen += [str(w.message) for w in wl]
+        finally:
+            root.removeHandler(cap)
+        keys = {n for _, n in adds} | {strip_name(n) for _, n in adds}
+        noisy = err is None and any(k and k in msg for msg in seen for k in keys)
         rep, amb, usr = [], [], {"globals": [], "filters": [], "tests": []}
         if env is not None:
             for kind, coll in (("filters", env.filters), ("tests", env.tests), ("globals", env.globals)):
@@ -884,14 +962,14 @@ class EnvPath:
                         usr[kind].append(n)
                         if n in self.base[lang][path][kind]:
                             (amb if (kind == "globals" and n in self.jinja_globals) else rep).append("%s:%s" % (kind, n))
-        return err, sorted(rep), sorted(amb), {k: sorted(v) for k, v in usr.items()}
+        return err, sorted(rep), sorted(amb), {k: sorted(v) for k, v in usr.items()}, noisy
 
 
 def env_record(J, EP, path, lang, allow, adds, obs, cats):
-    err, rep, amb, usr = obs
+    err, rep, amb, usr, noisy = obs
     kinds = "+".join(sorted({k for k, _ in adds})) or "none"
     case = {"kind": "env", "path": path, "lang": lang, "allow": allow, "adds": [list(a) for a in adds]}
-    J.add({"k": "env", "allow": bool(allow), "err": err is not None, "replaced": len(rep)},
+    J.add({"k": "env", "allow": bool(allow), "err": err is not None or noisy, "replaced": len(rep)},
           kinds=kinds, cats=cats, adds=adds, path=path, lang=lang, replaced_names=rep, case=case)
 
 
@@ -988,7 +1066,7 @@ def env_additions(ctx, J, GP, cases):
             for inst, mapping in instantiate(lang, c["path"], c["adds"], exhaustive):
                 obs = EP.observe(c["path"], lang, c["allow"], inst)
                 ctx.count()
-                err, rep, amb, usr = obs
+                err, rep, amb, usr, noisy = obs
                 cats = "+".join(sorted(to_s(n)[-1] for _, n in c["adds"])) or "none"
                 env_record(J, EP, c["path"], lang, c["allow"], inst, obs, cats)
                 amb_total += len(amb)
@@ -1035,23 +1113,40 @@ def env_additions(ctx, J, GP, cases):
 
 
 # ---------------------------------------------------------------------------------------------------------------------
-def selftests(ctx, J, emitted, H):
-    """the binding is demonstrated: corrupted observations must be rejected, a perturbed expectation must be noticed"""
+CANNED = {
+    "hist": {"k": "hist", "bases": [[2], [3], [], []], "anyc": 3, "user": [2], "builtin": [3], "fs": True, "pkg": True,
+             "steps": [{"c": 1, "got": 2, "cold": 2, "ref": 2, "src": 1}]},
+    "inst": {"k": "inst", "bases": [[], [1], [1], [3], []], "roots": [2, 3], "attr": 3, "vcls": 2, "dcls": 0, "res": [0, 1, 0, 0, 0], "resa": [0, 1, 0, 0, 0]},
+    "env": {"k": "env", "allow": False, "err": True, "replaced": 0},
+    "alias": {"k": "alias", "name": cps("VoidType"), "alias": cps("void"), "has_name": True, "has_alias": True},
+}
+
+
+def selftests(ctx, J, emitted, H, rej0):
+    """the binding is demonstrated: corrupted observations must be rejected, a perturbed expectation must be noticed.  The records
+    corrupted are recorded observations that the T-layer ACCEPTED (canned ones only where the tree leaves none)."""
     import copy
 
-    bad = []
     pick = {}
     for r in J.recs:
-        if r["k"] == "hist" and "hist" not in pick and any(s["got"] not in (0,) for s in r["steps"]) and J.info[r["id"]]["hier"].kind == "synthetic":
-            pick["hist"] = r
-        if r["k"] == "inst" and "inst" not in pick and r["vcls"] and not r["dcls"]:
+        if r["id"] in rej0:
+            continue
+        if r["k"] == "hist" and "hist" not in pick and J.info[r["id"]]["hier"].kind == "synthetic":
+            hh = J.info[r["id"]]["hier"]
+            first = next((s for s in r["steps"] if s["got"]), None)
+            if first is not None and first["got"] <= hh.n and hh.anyc in hh.dist[first["got"]]:
+                pick["hist"] = r
+        if r["k"] == "inst" and "inst" not in pick and r["vcls"] and not r["dcls"] and r["roots"][0] in J.info[r["id"]]["hier"].dist[r["vcls"]]:
             pick["inst"] = r
         if r["k"] == "env" and "env" not in pick and r["err"] and not r["allow"]:
             pick["env"] = r
         if r["k"] == "alias" and "alias" not in pick:
             pick["alias"] = r
-    if len(pick) < 4:
-        raise MachineryFailure("self-test: no suitable records (%s)" % sorted(pick))
+    canned = sorted(k for k in CANNED if k not in pick)
+    for k in canned:
+        pick[k] = CANNED[k]
+    if canned:
+        ctx.cov["selftest_canned_records"] = canned
     h = copy.deepcopy(pick["hist"])
     for s in h["steps"]:
         if s["got"]:
@@ -1072,15 +1167,22 @@ def selftests(ctx, J, emitted, H):
     e["err"], e["replaced"], e["id"] = False, 1, 3
     a = copy.deepcopy(pick["alias"])
     a["has_alias"], a["id"] = False, 4
-    rej = tlc.validate_traces(ctx, "TemplateLookupTrace", [h, h2, it, e, a])
-    ctx.cov["traces_validated_against_impl"] -= 5 - len(rej)
+    ok = [dict(copy.deepcopy(pick[k]), id=10 + n) for n, k in enumerate(sorted(pick))]
+    before = ctx.cov["traces_validated_against_impl"]
+    rej = tlc.validate_traces(ctx, "TemplateLookupTrace", [h, h2, it, e, a] + ok)
+    ctx.cov["traces_validated_against_impl"] = before  # self-test records are not observations of the tree
+    ctx.selftest("the uncorrupted records are accepted", not any(r["id"] in rej for r in ok))
     ctx.selftest("T-layer rejects 'None' where an ancestor has a template", rej.get(0, "").startswith("lookup.nearest"))
     ctx.selftest("T-layer rejects an answer that differs from the cold answer", rej.get(1, "").startswith("lookup.history"))
     ctx.selftest("T-layer rejects a false instance test on the value's own class", rej.get(2, "").startswith("env.test_membership"))
     ctx.selftest("T-layer rejects a silent replacement", rej.get(3, "").startswith("env.no_silent_replace"))
     ctx.selftest("T-layer rejects a missing alias", rej.get(4, "").startswith("env.test_exists"))
     # spec -> code: perturb one expected outcome of an emitted case, the comparison must notice
-    rid, c, mism = next(x for x in emitted if x[2] is None and any(s["got"] for s in x[1]["steps"]))
+    cand = [x for x in emitted if x[2] is None and any(s["got"] for s in x[1]["steps"])]
+    if not cand:
+        ctx.not_exercised("self-test of the replay comparison: no emitted history matches the I-layer on this tree")
+        return
+    rid, c, mism = cand[0]
     steps = J.recs[rid]["steps"]
     pert = copy.deepcopy(c["steps"])
     for s in pert:
@@ -1132,6 +1234,7 @@ def run(ctx):
     rand_real_histories(ctx, R, LP, J, H, ctx.pick(2500, 25000))
     lap("random histories on the pydsdl hierarchy")
     ngen = generator_histories(ctx, R, J, H, GP, ctx.pick(240, 2400))
+    nsup = support_templates(ctx, R, J, GP)
     lap("generator paths")
     # 3. instance tests, 4. environment additions
     tested = instance_tests(ctx, J, H, GP)
@@ -1148,8 +1251,8 @@ def run(ctx):
             nd += 1
             ctx.drift("lookup: " + mism)
     ctx.cov["lookup"] = {"model_histories_replayed": len(cases), "i_layer_mismatches_accepted_by_P": nd, "pydsdl_classes": H.n,
-                         "generate_all_runs": ngen}
-    selftests(ctx, J, emitted, H)
+                         "generate_all_runs": ngen, "support_generator_runs": nsup}
+    selftests(ctx, J, emitted, H, rej)
 
     ctx.cov["rule"] = ("spec->code: every complete lookup history of TemplateLookup.tla (all pairs of template subsets of 4/5-class chain, diamond, "
                        "tree x lookup sequences <= 3 x {fs, pkg, both}) replayed on real DSDLTemplateLoader objects; every addition scenario of the "
@@ -1166,7 +1269,6 @@ def run(ctx):
         "the set a loader object has no loader for (package under FIND_FIRST with directories; directories when none are given) is invisible",
     ]
     ctx.not_exercised("user templates in sub-directories of a templates directory (stem collisions between sub-directories)")
-    ctx.not_exercised("SupportGenerator (FIND_ALL over support templates): it never resolves templates by class")
 
 
 # ---------------------------------------------------------------------------------------------------------------------
@@ -1183,7 +1285,8 @@ def replay(ctx, case):
             ids = set
         user, builtin = ids(case["user"]), ids(case["builtin"])
         mode, flavor = case["mode"], case.get("flavor", 0)
-        dirs = R.user(H.names(user))
+        cdirs = R.user(H.names(user))
+        dirs = R.user_layout(case["layout"]) if case.get("layout") else cdirs
         kw = {}
         if case.get("real_package"):
             kw = {"pkg": "nunavut.lang." + case["real_package"], "tpath": "templates"}
@@ -1192,7 +1295,8 @@ def replay(ctx, case):
             b = R.builtin(H.names(builtin))
         if case["path"] == "loader":
             lookups = [H.name2id[n] for n in case["lookups"]] if case["hier"] == "pydsdl" else list(case["lookups"])
-            steps = LoaderPath(R).history(lambda: make_loader(mode, dirs, b, flavor, **kw), H, lookups, dirs, "replay")
+            steps = LoaderPath(R).history(lambda: make_loader(mode, dirs, b, flavor, **kw), H, lookups, dirs, "replay",
+                                          "replayref", lambda: make_loader(mode, cdirs, b, flavor, **kw))
             path = "DSDLTemplateLoader"
         else:
             fx = Fixture(ctx)
@@ -1212,9 +1316,18 @@ def replay(ctx, case):
                     v = byd[d]
                     got, src = GP.lookup(g, H, v, dirs)
                     cold = GP.lookup(GP.gen(case["lang"], mode, dirs, b, flavor=flavor), H, v, dirs)[0]
-                    steps.append({"c": H.id[type(v)], "got": got, "cold": cold, "ref": cold, "src": src})
+                    ref = GP.lookup(GP.gen(case["lang"], mode, cdirs, b, flavor=flavor), H, v, cdirs)[0]
+                    steps.append({"c": H.id[type(v)], "got": got, "cold": cold, "ref": ref, "src": src})
             path = "DSDLCodeGenerator/" + case["lang"]
         J.add(hist_record(0, H, user, builtin, mode, steps), hier=H, mode=mode, path=path, case=case)
+    elif kind == "support":
+        fx = Fixture(ctx)
+        GP = GenPath(ctx, fx)
+        J2 = Judge(ctx)
+        support_templates(ctx, R, J2, GP)
+        for r in J2.recs:
+            if J2.info[r["id"]]["case"] == case:
+                J.add(dict(r), **J2.info[r["id"]])
     elif kind in ("inst", "alias"):
         H = real_hier()
         fx = Fixture(ctx)
